@@ -388,6 +388,30 @@ fn pulls_of_slot<P: Payload + Clone>(st: &mut Stats, ctx: &Ctx, b: &Bundle, pref
                 }
                 if got != want {
                     st.violation(keep, Finding { prop: "C10".into(), kind: format!("pulls:{}", which), detail: format!("{} from slot {} under pull word {} yields {:?} expected {:?} (forward iteration yields {:?})", which, slot, w, got, want, fwd), case: case_json(b, prefix, None, json!({"word": w, "want": want}), json!(got)) });
+                } else if w.len() <= 4 {
+                    // what is left after these pulls is the same however it is consumed (every element exactly once):
+                    // repeated next(), count(), last(), fold()/for_each(), rev()
+                    let left: Vec<i64> = (1..=fwd.len()).filter(|p| !positions.contains(p)).map(|p| fwd[p - 1]).collect();
+                    let (rest, count, last, folded, rev) = sim.pulls_then(which, slot, w, limit);
+                    let mut left_rev = left.clone();
+                    left_rev.reverse();
+                    st.pull_checks += 1;
+                    let bad = if rest != left {
+                        Some(format!("repeated next() yields {:?}", rest))
+                    } else if count != left.len() {
+                        Some(format!("count() is {}", count))
+                    } else if last != left.last().copied().unwrap_or(0) {
+                        Some(format!("last() is {}", last))
+                    } else if folded != left {
+                        Some(format!("fold()/for_each() visits {:?}", folded))
+                    } else if rev != left_rev {
+                        Some(format!("rev() yields {:?}", rev))
+                    } else {
+                        None
+                    };
+                    if let Some(d) = bad {
+                        st.violation(keep, Finding { prop: "C10".into(), kind: format!("after-pulls:{}", which), detail: format!("{} from slot {} after the pulls {}: {}, but the elements not yet yielded are {:?} (forward iteration yields {:?})", which, slot, w, d, left, fwd), case: case_json(b, prefix, None, json!({"word": w, "left": left}), json!({"next": rest, "count": count, "last": last, "fold": folded, "rev": rev})) });
+                    }
                 }
             }
         }
@@ -477,6 +501,13 @@ fn compare_observers<P: Payload + Clone>(st: &mut Stats, ctx: &Ctx, b: &Bundle, 
         cmpe!(next_e, "next_traverse(End)");
         cmpe!(prev_s, "prev_traverse(Start)");
         cmpe!(prev_e, "prev_traverse(End)");
+
+        // the sequence is the same however the iterator is consumed (count / last / fold / nth; size_hint brackets it)
+        st.check("C09", 9);
+        st.observer_checks += 9;
+        for d in sim.consumers_disagree(slot, limit) {
+            st.violation(keep, Finding { prop: "C09".into(), kind: "consumer".into(), detail: format!("from slot {}: {}", slot, d), case: case_json(b, prefix, None, json!(exp), json!(got)) });
+        }
 
         if ctx.opts.pulls {
             pulls_of_slot(st, ctx, b, prefix, sim, slot, limit, Some(exp));
@@ -683,6 +714,18 @@ fn run_bundle<P: Payload + Clone>(ctx: &Ctx, b: &Bundle, prefix: &Option<Vec<Cal
                         st.violation(keep, Finding { prop: "C05".into(), kind: "valid-call-failed".into(), detail: format!("{} -> {} {}", c.op, d.class, d.panic_msg), case: case_json(b, prefix, Some(&c), json!(allowed), json!(d)) });
                         continue;
                     }
+                    if c.op == "append_value" {
+                        // append_value(v) == new_node(v) ; append  (whatever slot the allocation takes)
+                        st.check("C03", 1);
+                        let mut g = sim.fork();
+                        let d1 = g.apply(&Call { op: "new".into(), a: 0, b: 0, v: c.v, checked: false, r: vec![] });
+                        if d1.class == "Ok" {
+                            let d2 = g.apply(&Call { op: "append".into(), a: c.a, b: d1.new, v: 0, checked: true, r: vec![] });
+                            if d2.class != "Ok" || g.arena != f.arena {
+                                st.violation(keep, Finding { prop: "C03".into(), kind: "append_value-vs-new+append".into(), detail: "arena after append_value(v) differs (==) from new_node(v) followed by append".into(), case: case_json(b, prefix, Some(&c), json!(g.proj()), json!(f.proj())) });
+                            }
+                        }
+                    }
                     let alt = b.out.iter().find(|x| x.c.op == c.op && x.c.v == c.v && (c.op == "new" || x.c.a == c.a) && x.new == d.new);
                     match alt {
                         None => {
@@ -695,18 +738,6 @@ fn run_bundle<P: Payload + Clone>(ctx: &Ctx, b: &Bundle, prefix: &Option<Vec<Cal
                             st.nontrivial_cases += 1;
                             note_state(st, &got, b, Some(&x.c));
                             fnv(&mut digest, serde_json::to_string(&(d.class.as_str(), &got)).unwrap().as_bytes());
-                            if c.op == "append_value" {
-                                // append_value(v) == new_node(v) ; append
-                                st.check("C03", 1);
-                                let mut g = sim.fork();
-                                let d1 = g.apply(&Call { op: "new".into(), a: 0, b: 0, v: c.v, checked: false, r: vec![] });
-                                if d1.class == "Ok" {
-                                    let d2 = g.apply(&Call { op: "append".into(), a: c.a, b: d1.new, v: 0, checked: true, r: vec![] });
-                                    if d2.class != "Ok" || g.arena != f.arena {
-                                        st.violation(keep, Finding { prop: "C03".into(), kind: "append_value-vs-new+append".into(), detail: "arena after append_value(v) differs (==) from new_node(v) followed by append".into(), case: case_json(b, prefix, Some(&c), json!(g.proj()), json!(f.proj())) });
-                                    }
-                                }
-                            }
                             let _ = want;
                         }
                     }
